@@ -1,9 +1,16 @@
 // C12 - the eigen-decomposition returned for a vector is valid for every Hermitian input
 #include "alg.h"
 #include <gsl/gsl_vector.h>
+#include <SQuIDS/detail/VerifHooks.h>
 using namespace alg;
 
 namespace {
+// H6: which solver answered (evidence only)
+long ev_closed_form_attempted = 0, ev_general_solver[7] = {0, 0, 0, 0, 0, 0, 0};
+void on_event(int kind, double a, double b) {
+  if (kind != squids::verif::EV_EIGEN_SOLVER) return;
+  if (a == 0) ev_closed_form_attempted++; else if (b >= 0 && b <= 6) ev_general_solver[(int)b]++;
+}
 const double TOL = 1e-9;  // "a valid decomposition": sound solvers give <=5e-14, the fragile closed form 1e-4..1
 
 enum Mod { M_NONE, M_ZERO_OFFDIAG, M_SCALE_OFFDIAG, M_GAP, M_SCALE_ALL, M_SINGLE_GEN, M_PROJECTOR, M_DIAG_ONLY, M_IDENT, M_TWO_GEN, NMOD };
@@ -48,6 +55,7 @@ void judge(vh::Ctx& c, int d, const Vec& a, bool order, const char* what) {
 }  // namespace
 
 void run_C12(vh::Ctx& c) {
+  squids::verif::event_hook() = on_event;
   // part 1 (exhaustive): every single generator, every projector, identity, for every d
   struct Fixed { int d; Vec a; std::string what; };
   std::vector<Fixed> fixed;
@@ -98,4 +106,8 @@ void run_C12(vh::Ctx& c) {
     judge(c, d, a, order, what.c_str());
     if (idx - F < 4) c.sample(c.cur_desc.substr(0, 400));
   });
+  c.count("solver.closed_form_attempted(d=3)", ev_closed_form_attempted);
+  c.count("solver.closed_form_accepted(d=3)", ev_closed_form_attempted - ev_general_solver[3]);
+  c.count("solver.general_solver_after_rejected_closed_form(d=3)", ev_general_solver[3]);
+  c.count("solver.general_solver(d!=3)", ev_general_solver[2] + ev_general_solver[4] + ev_general_solver[5] + ev_general_solver[6]);
 }
